@@ -630,6 +630,27 @@ type RevocationStatus struct {
 	MTP    merkletree.Proof `json:"mtp"`
 }
 
+// UnmarshalJSON decodes the revocation status, rejecting a malformed Merkle
+// tree proof instead of letting its decoder panic.
+func (r *RevocationStatus) UnmarshalJSON(in []byte) error {
+	type revocationStatusAlias RevocationStatus
+	obj := struct {
+		*revocationStatusAlias
+		MTP json.RawMessage `json:"mtp"`
+	}{revocationStatusAlias: (*revocationStatusAlias)(r)}
+	if err := json.Unmarshal(in, &obj); err != nil {
+		return err
+	}
+	mtp, err := decodeMTP(obj.MTP)
+	if err != nil {
+		return err
+	}
+	if mtp != nil {
+		r.MTP = *mtp
+	}
+	return nil
+}
+
 type TreeState struct {
 	State              *string `json:"state"`
 	RootOfRoots        *string `json:"rootOfRoots,omitempty"`
